@@ -41,6 +41,11 @@ CHECKS['C08'] = dict(
    text='Generated-input search with a step monitor. The cache handed to run_tape is a dict subclass that logs every __setitem__ / __delitem__ / pop / update / setdefault / clear / |= with its key; any mutation under a non-bytes key (other than the interpreter\'s control key "returned") at any step, in successful and failed runs, is a violation, as is any embedder entry that is missing or differs in value or type from a deep copy afterwards (also in the cache run_script returns), and any change in what GET_MESSAGE / CHECK_TIMESTAMP observe after the script. Scripts concentrate on the ~20 cache-writing paths with keys spelling the protected names in several encodings, nested in every construct, plus mutated byte soup.',
    note='No plugin or contract is installed (the property\'s precondition). Program key operands are biased to the keys of the drawn cache. The key "returned" is interpreter-owned and never supplied.',
    design='3/C08')
+CHECKS['C01'] = dict(
+   technique='Hypothesis-generated witness / lock lists; metamorphic sentinel oracle (FALSE VERIFY must be reached), differential against a hand composition through run_script / run_tape, totality',
+   text='Generated-input search. Lists of 1-4 scripts: structured witnesses (RETURN at nesting depth 0-3 in every construct, DEFs incl. handles the lock calls, cache writes incl. the keys returned / E / P, junk, call-budget burning) with structured locks, real builder witness / lock pairs with an adversarial script before or between them, call-budget families around the limit, mutated byte soup; initial caches and limit triples drawn as well. Every case is judged by three oracles: a FALSE VERIFY sentinel appended / prepended to the last (and a middle) script must make the verdict False; the verdict must equal that of a hand composition of the scripts on one shared stack and cache through the public single-script API, in both directions; run_auth_scripts / run_auth_script never raise and Script objects behave like bytes.',
+   note='The composition oracle reuses the implementation of single-script execution: only the sequencing across scripts (carry-over of stack, cache, definitions, cumulative call count, control residue) is independent. Sentinel locks contain RETURN only inside DEF bodies or pushed-and-evaluated scripts. Vacuity guard: >= 10 % of cases authorise.',
+   design='3/C01')
 NOT_YET = {}
 for i in range(1, 21):
     pid = 'C%02d' % i
